@@ -268,7 +268,7 @@ func TestCheck(t *testing.T) {
 			}
 		}
 	}
-	rt.Cases(len(cells)*5, len(cells)*2000, func(idx int64) {
+	rt.Cases(len(cells)*20, len(cells)*5000, func(idx int64) {
 		r := rt.CaseRand(13, idx)
 		rt.Case()
 		c := cells[int(idx)%len(cells)]
